@@ -31,7 +31,7 @@ def gen_scenario(rng, profile: dict) -> dict:
     resolver = rng.random() < profile.get("resolver_p", 0.6)
     ex = {"backend": "local", "disable_dependencies": not resolver}
     if mode == "block":
-        n = rng.choice([1, 1, 2, 2, 3])
+        n = rng.choice(profile.get("block_workers", [1, 1, 2, 2, 3]))
         ex.update(block_allocation=True, max_workers=n)
         limit = None
     else:
@@ -57,7 +57,7 @@ def gen_scenario(rng, profile: dict) -> dict:
             gates.append(len(gates))
         args, kwargs = [], {}
         if resolver and profile.get("deps", True) and i > 0:
-            for _ in range(rng.choice([0, 0, 1, 1, 2, 3])):
+            for _ in range(rng.choice(profile.get("dep_weights", [0, 0, 1, 1, 2, 3]))):
                 j = rng.randrange(0, i)
                 shape = rng.random()
                 if shape < 0.45:
@@ -73,7 +73,7 @@ def gen_scenario(rng, profile: dict) -> dict:
         if rng.random() < 0.2:
             kwargs["p"] = {"v": rng.randrange(0, 9)}
         c["args"], c["kwargs"] = args, kwargs
-        if profile.get("resources", True) and mode == "percall" and rng.random() < 0.5:
+        if profile.get("resources", True) and mode == "percall" and rng.random() < profile.get("res_p", 0.5):
             t = rng.choice([1, 1, 2, 2, 3])
             if limit is not None:
                 t = min(t, limit)        # a request above the limit starves (finding D10), kept out here
@@ -330,7 +330,11 @@ def judge(model, scen: dict, out: dict) -> dict:
             closed = True
         elif cmd["c"] == "submit" and closed and cmd.get("ok"):
             oracles.append({"oracle": "accepted_after_shutdown"})
-    cancel_ok = rep["state"].get("cancelOk", []) if rep.get("state") else []
+    cancel_ok = set(rep["state"].get("cancelOk", []) if rep.get("state") else [])
+    for cmd, sc in zip(obs.get("cmds", []), scen["script"]):
+        if cmd["c"] == "cancel" and cmd.get("r") is True:
+            cancel_ok.add(sc["i"])
+    cancel_ok = sorted(cancel_ok)
     for i in cancel_ok:
         if i in enters:
             oracles.append({"oracle": "cancelled_call_executed", "i": i})
@@ -378,7 +382,16 @@ def judge(model, scen: dict, out: dict) -> dict:
     # single worker FIFO (C11)
     if ex.get("block_allocation") and ex.get("max_workers") == 1 and not hang:
         order = [i for (i, pid, n, a, b) in sorted(intervals, key=lambda x: x[3])]
-        plain = [i for i in order if not deps_of(scen["calls"][i])]
+        # calls that carry no futures, or whose futures were all awaited by the script before they were submitted
+        awaited, ready_at_submit, k = set(), set(), 0
+        for c in scen["script"]:
+            if c["c"] == "await":
+                awaited.add(c["i"])
+            elif c["c"] == "submit":
+                if all(j in awaited for j in deps_of(scen["calls"][k])):
+                    ready_at_submit.add(k)
+                k += 1
+        plain = [i for i in order if i in ready_at_submit]
         if plain != sorted(plain):
             oracles.append({"oracle": "single_worker_fifo", "order": order})
     return {"diff": diff, "oracles": oracles, "info": info, "labels": labels}
